@@ -210,6 +210,103 @@ func (sc *sessionScenario) addKeyLines(r *vh.Rng, add func(*proj.Project) *proj.
 	sc.Pairs = append(sc.Pairs, []*scLine{soA, soB}, []*scLine{soB, scA, soA})
 	sc.Equiv = append(sc.Equiv, scEquiv{"so/s02", "sc", "soilid-override", "soilId=S02 selects the second profile of the project's soil file; project sc has that profile as its only one", ""})
 
+	// ---- GroundWaterFrom= on the line: the same project, soil file and soil id with another groundwater source (the parsed
+	// soil profile depends on the source: with `soilfile` the table depth comes from the soil file, with `polygonfile` from the
+	// polygon file); both orders in one session, each line against its solo run and against the project configured that way
+	gq := add(genWithCrop(r, "gq"))
+	gq.Cfg["GroundWaterFrom"] = "soilfile"
+	gq.GWSerie = nil
+	gq.GW = r.Range(8, 16)
+	gq.GH, gq.GL = r.Range(3, 5), r.Range(6, 7)
+	gq.DailyCols = withCol(gq.DailyCols, "GRW")
+	gp := clone(gq, "gp")
+	gp.Cfg["GroundWaterFrom"] = "polygonfile"
+	gqA := line(gq, "gq", "groundwaterfrom-override", "")
+	gqB := line(gq, "gq/poly", "groundwaterfrom-override", "", "GroundWaterFrom=0")
+	gpA := line(gp, "gp", "groundwaterfrom-override", "")
+	sc.Pairs = append(sc.Pairs, []*scLine{gqA, gqB}, []*scLine{gqB, gqA}, []*scLine{gqB, gpA, gqA})
+	sc.Equiv = append(sc.Equiv, scEquiv{"gq/poly", "gp", "groundwaterfrom-override", "GroundWaterFrom=0 (= polygonfile) on the line takes the groundwater levels from the polygon file; project gp is configured that way", ""})
+
+	// ---- user-defined crops (codes that are not in the built-in crop table; own PARAM.<code> files and CROP_N rows in a parameter
+	// folder of their own): two projects grow the same two user-defined crops in opposite order, so the numbers the reader hands
+	// out for them at first appearance differ between the runs of one session
+	ux := add(func() *proj.Project {
+		for {
+			q := genWithCrop(r, "ux")
+			if len(q.Rot) >= 3 && q.Rot[1].Crop != q.Rot[2].Crop {
+				return q
+			}
+		}
+	}())
+	origA, origB := ux.Rot[1].Crop, ux.Rot[2].Crop
+	for _, k := range []string{"AutoSowingHarvest", "AutoFertilization", "AutoIrrigation", "AutoHarvest"} {
+		ux.Cfg[k] = "0"
+	}
+	ux.Cfg["CropParameterFormat"] = "txt"
+	userCode := func(c string) string {
+		switch c {
+		case origA:
+			return "UAA"
+		case origB:
+			return "UAB"
+		}
+		return c
+	}
+	for i := range ux.Rot {
+		ux.Rot[i].Variety = ""
+		if i >= 3 && ux.Rot[i].Crop != origA && ux.Rot[i].Crop != origB {
+			ux.Rot[i].Crop = origA
+		}
+	}
+	ux.Rot[0].Crop = origA
+	uy := clone(ux, "uy")
+	uy.Rot[0].Crop = origB
+	uy.Rot[1].Crop, uy.Rot[2].Crop = origB, origA
+	for _, q := range []*proj.Project{ux, uy} {
+		for i := range q.Rot {
+			q.Rot[i].Crop = userCode(q.Rot[i].Crop)
+		}
+	}
+	uxA := line(ux, "ux", "user-defined-crops", "", "parameter=par_user")
+	uyA := line(uy, "uy", "user-defined-crops", "", "parameter=par_user")
+	after(func(root string) error {
+		// a copy of the standard parameter folder of this root
+		dir := filepath.Join(root, "par_user")
+		if err := os.MkdirAll(dir, 0o755); err != nil {
+			return err
+		}
+		ents, err := os.ReadDir(filepath.Join(root, "parameter"))
+		if err != nil {
+			return err
+		}
+		for _, e := range ents {
+			if e.IsDir() {
+				continue
+			}
+			if err := copyFile(filepath.Join(dir, e.Name()), filepath.Join(root, "parameter", e.Name())); err != nil {
+				return err
+			}
+		}
+		cn, err := os.ReadFile(filepath.Join(dir, "CROP_N.TXT"))
+		if err != nil {
+			return err
+		}
+		text := string(cn)
+		for _, pr := range [][2]string{{origA, "UAA"}, {origB, "UAB"}} {
+			if err := copyFile(filepath.Join(dir, "PARAM."+pr[1]), filepath.Join(dir, "PARAM."+pr[0])); err != nil {
+				return err
+			}
+			for _, ln := range strings.Split(text, "\n") {
+				if strings.HasPrefix(ln, pr[0]+" ") || (len(ln) > 3 && strings.TrimSpace(ln[:3]) == pr[0]) {
+					text += pr[1] + ln[3:] + "\n"
+					break
+				}
+			}
+		}
+		return os.WriteFile(filepath.Join(dir, "CROP_N.TXT"), []byte(text), 0o644)
+	})
+	sc.Pairs = append(sc.Pairs, []*scLine{uxA, uyA}, []*scLine{uyA, uxA}, []*scLine{uxA, uyA, uxA})
+
 	// ---- fileExtension=: another rotation (and polygon, automan) file of the same project
 	fe := add(genWithCrop(r, "fe"))
 	if strings.Trim(fe.Cfg["CropFileFormat"], "\"") == "txt" {
